@@ -164,9 +164,9 @@ def main(argv):
                     ctx.obligations.append(o)
         except MissingAnchor:
             pass
-        mod = importlib.import_module("rules.%s" % prop.lower())
-        if hasattr(mod, "thorough"):
-            extra.update(mod.thorough(ctx) or {})
+        import thorough as th_mod
+        extra.update(th_mod.run_witness(ctx, prop))
+        extra.update(th_mod.replay_seeds(ctx, prop, run_rules))
 
     known = load_known()
     viol_dir = os.path.join(VERIF, "evidence", "%s.violations" % prop)
